@@ -127,6 +127,7 @@ def generate(rng, tier, cls):
     return {'actors': [prod], 'schedule': [], 'faults': [], 'configs': cfgs,
             'buffer_inputs': rng.chance(0.3),
             'stream_extras': gen.gen_stream_extras(rng),
+            'short_pad_key': rng.chance(0.2),
             'again': [rng.randint(1, 4), rng.choice(['close', 'throw',
                                                      'drop'])]
             if rng.chance(0.1) else None}
@@ -168,12 +169,12 @@ def sweep_scenarios(task):
                'configs': cfgs, 'seed': task['seed'], 'run': pad}
 
 
-def strip_pad(rec):
+def strip_pad(rec, key='pad'):
     if isinstance(rec, dict) and isinstance(rec.get('options'), dict) and \
-       'pad' in rec['options']:
+       key in rec['options']:
         rec = dict(rec)
         rec['options'] = {k: v for k, v in rec['options'].items()
-                          if k != 'pad'}
+                          if k != key}
 
     return rec
 
@@ -209,7 +210,11 @@ def execute(scn, L):
         out.discarded = 'intact-not-wellformed:' + e.kind
         return out
 
-    if not ref or any('pad' in r['options'] for r in ref):
+    # (the padding option's key: also as short as a key can be)
+    padkey = 'P' if scn.get('short_pad_key') else 'pad'
+
+    if not ref or any('pad' in r['options'] or 'P' in r['options']
+                      for r in ref):
         out.discarded = 'empty-or-padded'
         return out
 
@@ -241,7 +246,7 @@ def execute(scn, L):
         if pad:
             data = apply_faults(wk, intact, [
                 {'kind': 'skew', 'section': psec if 0 <= psec < len(ref)
-                 else 0, 'key': 'pad', 'value': 'x' * pad}],
+                 else 0, 'key': padkey, 'value': 'x' * pad}],
                 actors[0]['file'])
 
         sx = scn.get('stream_extras') or {}
@@ -295,10 +300,10 @@ def execute(scn, L):
         bad = False
 
         for i, (g, r) in enumerate(zip(recs, ref)):
-            d = pipe.rec_equal(strip_pad(g), r)
+            d = pipe.rec_equal(strip_pad(g, padkey), r)
 
             if d is not None:
-                info.update({'index': i, 'differs': d, 'got': strip_pad(g),
+                info.update({'index': i, 'differs': d, 'got': strip_pad(g, padkey),
                              'want': R.public(r)})
                 out.violate('C17.record', '%s:%s' % (r['type'], d), info)
                 bad = True
